@@ -11,7 +11,9 @@ Names are identifier strings; the Coq side uses numbers (Names table below).
 """
 from __future__ import annotations
 
+import os
 import re
+import subprocess
 import unicodedata
 
 RESERVED = ["loop", "caller", "namespace", "kwargs", "varargs", "self"]
@@ -186,6 +188,53 @@ def run_line(p, data, N, fuel=300):
 
 def sym_line(p, N):
     return "(sym (prog " + " ".join(s_sx(s, N) for s in p) + "))"
+
+
+DRIVER = os.path.join(os.path.dirname(os.path.dirname(os.path.abspath(__file__))), "build", "bin", "scope")
+
+
+def _big_stack():
+    import resource
+    try:
+        resource.setrlimit(resource.RLIMIT_STACK, (resource.RLIM_INFINITY, resource.RLIM_INFINITY))
+    except (ValueError, OSError):
+        pass
+
+
+def _run(lines, timeout):
+    p = subprocess.run([DRIVER], input="\n".join(lines) + "\n", capture_output=True, text=True, timeout=timeout,
+                       preexec_fn=_big_stack)
+    if p.returncode != 0:
+        raise RuntimeError("driver scope failed: " + p.stderr[-300:])
+    out = p.stdout.split("\n")
+    if out and out[-1] == "":
+        out.pop()
+    if len(out) != len(lines):
+        raise RuntimeError(f"driver scope: {len(lines)} cases in, {len(out)} lines out")
+    return out
+
+
+def run_driver(lines, batch=200, batch_timeout=60, line_timeout=4, stats=None):
+    """Run the extracted model on `lines` in batches.  A batch that does not finish in time (a rare
+    program family: a macro that calls itself with a doubled argument builds a text of size 2^fuel) is
+    re-run line by line; a line that still does not finish yields None and the case is skipped (the real
+    engine is not run on it either)."""
+    out = []
+    for i in range(0, len(lines), batch):
+        chunk = lines[i:i + batch]
+        try:
+            out += _run(chunk, batch_timeout)
+            continue
+        except (subprocess.TimeoutExpired, RuntimeError):
+            pass
+        for ln in chunk:
+            try:
+                out += _run([ln], line_timeout)
+            except (subprocess.TimeoutExpired, RuntimeError):
+                out.append(None)
+                if stats is not None:
+                    stats["skipped"] = stats.get("skipped", 0) + 1
+    return out
 
 
 def expand_text(codes, N):
